@@ -246,7 +246,7 @@ func c06run(w *report.W) {
 	}
 	forests := c06forests(maxNodes, 4)
 	w.P.Bounds["forests"] = fmt.Sprintf("%d ordered forests of <=%d nodes over {C,N,U,G}, group depth <=4", len(forests), maxNodes)
-	pipeEnvs := []map[string]string{{"A": "pa", "B": "pb"}, nil, {}, {"A": "pa"}, {"B": "pb"}, {"A": "", "B": "pb"}}
+	pipeEnvs := []map[string]string{{"A": "pa", "B": "pb"}, nil, {}, {"A": "pa"}, {"B": "pb"}, {"A": "", "B": "pb"}, {"my.var-x": "v", "2FA(x86) \u00e9": "w", "A": "pa"}}
 	for _, f := range forests {
 		nodes := strings.Count(f, "C") + strings.Count(f, "N") + strings.Count(f, "U") + strings.Count(f, "G")
 		for pi, pe := range pipeEnvs {
@@ -296,7 +296,7 @@ func init() {
 	register(&report.Check{
 		ID: "C06",
 		Rule: "every ordered forest of <=6 (quick) / <=8 (thorough) nodes over {command, other known step (wait/input/trigger cycled), unknown, group}, groups nested to depth 4, " +
-			"command steps (every third and fourth with CRLF line ends / leading white space, non-ASCII text and trailing newlines in the command) (for odd rotations all sharing one stale signature object beforehand) carrying step env variants (none, {A}, {C}, {A,C}, empty, {A: \"\"}, {B: \"\", C: \"\"}; rotated), plugins or a matrix; x pipeline env in {{A,B}, nil, {}, {A}, {B}, {A: \"\", B}} and all rotations for forests of <=4 nodes; " +
+			"command steps (every third and fourth with CRLF line ends / leading white space, non-ASCII text and trailing newlines in the command) (for odd rotations all sharing one stale signature object beforehand) carrying step env variants (none, {A}, {C}, {A,C}, empty, {A: \"\"}, {B: \"\", C: \"\"}; rotated), plugins or a matrix; x pipeline env in {{A,B}, nil, {}, {A}, {B}, {A: \"\", B}, {A, a dotted-dashed name, a name with digits / parentheses / space / non-ASCII}} and all rotations for forests of <=4 nodes; " +
 			"EdDSA everywhere, ES512 / PS512 / ES256 crypto.Signer on forests of <=3 nodes. Oracle: unknown anywhere => error; else every command step at every depth is signed, verifies, names the key's " +
 			"algorithm, signed fields == sorted(5 mandatory + env::N for pipeline vars not shadowed by the step); deep snapshot and JSON of the steps minus signatures unchanged; caller's env map snapshot unchanged. " +
 			"Non-trivial = forest has a command step and a group.",
